@@ -19,3 +19,14 @@ func VerifCapMuFree(sw Swamp) bool {
 func VerifVigilCount(sw Swamp) int64 {
 	return vigil.VerifCount(sw.(*swamp).Vigil)
 }
+
+// VerifSwampMuFree reports whether the swamp's own mutex (s.mu, the one the write path read-locks)
+// could be write-locked right now (it is released again immediately). Verification builds only.
+func VerifSwampMuFree(sw Swamp) bool {
+	s := sw.(*swamp)
+	if s.mu.TryLock() {
+		s.mu.Unlock()
+		return true
+	}
+	return false
+}
